@@ -397,10 +397,122 @@ func ruleOffsetAgree(c *Ctx) {
 						if !isAdd || bo.Op != token.ADD {
 							continue
 						}
-						if fi.isAddendOf(v, bo.X) {
+						// (the other addend counts as "verified before" only if it exists when v is computed)
+						before := func(o ssa.Value) bool {
+							oi, isInstr := o.(ssa.Instruction)
+							vi, _ := v.(ssa.Instruction)
+							if !isInstr || vi == nil {
+								return true
+							}
+							if oi.Block() == vi.Block() {
+								return fi.instrIx[oi] < fi.instrIx[vi]
+							}
+							return oi.Block().Dominates(vi.Block())
+						}
+						if fi.isAddendOf(v, bo.X) && before(bo.Y) {
 							K = fi.lin(bo.Y)
-						} else if fi.isAddendOf(v, bo.Y) {
+						} else if fi.isAddendOf(v, bo.Y) && before(bo.X) {
 							K = fi.lin(bo.X)
+						}
+					}
+					// the running count may be kept in a counter of its own that is added to the length found
+					// so far only afterwards (k += n): then the verified length is that outer addend plus n
+					Ks := []Lin{K}
+					{
+						// (within one iteration of the scan loop: values of earlier iterations do not count)
+						dependsOnV := func(x ssa.Value) bool {
+							seen := map[ssa.Value]bool{}
+							found := false
+							var walk func(y ssa.Value)
+							walk = func(y ssa.Value) {
+								if y == nil || seen[y] || found {
+									return
+								}
+								seen[y] = true
+								if y == v {
+									found = true
+									return
+								}
+								in, ok := y.(ssa.Instruction)
+								if !ok || !s.L.Blocks[in.Block()] {
+									return
+								}
+								switch z := y.(type) {
+								case *ssa.Phi:
+									if z.Block() == s.L.Header {
+										return
+									}
+									for _, e := range z.Edges {
+										walk(e)
+									}
+								case *ssa.BinOp:
+									if z.Op == token.ADD || z.Op == token.SUB {
+										walk(z.X)
+										walk(z.Y)
+									}
+								case *ssa.Convert:
+									walk(z.X)
+								}
+							}
+							walk(x)
+							return found
+						}
+						// the additions between v and the emitted length within this iteration
+						feedsIter := map[ssa.Value]bool{}
+						var walkM func(y ssa.Value)
+						walkM = func(y ssa.Value) {
+							if y == nil || feedsIter[y] {
+								return
+							}
+							in, ok := y.(ssa.Instruction)
+							if !ok || !s.L.Blocks[in.Block()] {
+								return
+							}
+							if ph, isPhi := y.(*ssa.Phi); isPhi && ph.Block() == s.L.Header {
+								return
+							}
+							feedsIter[y] = true
+							switch z := y.(type) {
+							case *ssa.Phi:
+								for _, e := range z.Edges {
+									walkM(e)
+								}
+							case *ssa.BinOp:
+								if z.Op == token.ADD {
+									walkM(z.X)
+									walkM(z.Y)
+								}
+							case *ssa.Convert:
+								walkM(z.X)
+							}
+						}
+						walkM(m)
+						var outers []Lin
+						for add := range feedsIter {
+							bo, isAdd := add.(*ssa.BinOp)
+							if !isAdd || bo.Op != token.ADD || fi.isAddendOf(v, bo.X) || fi.isAddendOf(v, bo.Y) {
+								continue
+							}
+							dx, dy := dependsOnV(bo.X), dependsOnV(bo.Y)
+							if dx && !dy {
+								outers = append(outers, fi.lin(bo.Y))
+							} else if dy && !dx {
+								outers = append(outers, fi.lin(bo.X))
+							}
+						}
+						sort.Slice(outers, func(i, j int) bool { return outers[i].String() < outers[j].String() })
+						// any subset of the outer addends may be what was verified before (a backward extension
+						// is an outer addend too, but not part of the forward length)
+						if len(outers) <= 4 {
+							for mask := 1; mask < 1<<len(outers); mask++ {
+								sum := K
+								for i, o := range outers {
+									if mask&(1<<i) != 0 {
+										sum = sum.add(o)
+									}
+								}
+								Ks = append(Ks, sum)
+							}
 						}
 					}
 					_, oa, ok1 := fi.sliceOff(wc.a, 0)
@@ -420,8 +532,11 @@ func ruleOffsetAgree(c *Ctx) {
 							return fi.proveCheap(l, conds, lem) && fi.proveCheap(l.scale(-1), conds, lem)
 						}
 						for _, pr := range [][2]Lin{{oa, ob}, {ob, oa}} {
-							if !good && eq(pr[0].sub(P).sub(K)) && eq(pr[0].sub(pr[1]).sub(off)) {
-								good = true
+							for _, Kc := range Ks {
+								if !good && eq(pr[0].sub(P).sub(Kc)) && eq(pr[0].sub(pr[1]).sub(off)) {
+									good = true
+									K = Kc
+								}
 							}
 						}
 						if good {
@@ -819,6 +934,58 @@ func (c *Ctx) carriedPrefix(fi *FuncInfo, ph *ssa.Phi, p ssa.Value, s *ScanLoop)
 }
 
 // ---------------------------------------------------------------- R-BACKEXT
+
+// equalWordGuard: cnt is the constant W ∈ {4, 8} and the addition is dominated by x == 0 for
+// x = load_W(p) ^ load_W(q) (two word loads of W bytes each).
+func equalWordGuard(fi *FuncInfo, add *ssa.BinOp, cnt ssa.Value) bool {
+	k, ok := constInt(cnt)
+	if !ok || (k != 4 && k != 8) {
+		return false
+	}
+	for _, cd := range fi.condsAt(add.Block()) {
+		cd = unNot(cd)
+		bo, ok := cd.V.(*ssa.BinOp)
+		if !ok || (bo.Op != token.EQL && bo.Op != token.NEQ) || (bo.Op == token.EQL) != cd.True {
+			continue
+		}
+		x := bo.X
+		if !isConstZero(bo.Y) {
+			if !isConstZero(bo.X) {
+				continue
+			}
+			x = bo.Y
+		}
+		xo, ok := x.(*ssa.BinOp)
+		if !ok || xo.Op != token.XOR {
+			continue
+		}
+		bt, ok := xo.Type().Underlying().(*types.Basic)
+		if !ok {
+			continue
+		}
+		w := int64(0)
+		switch bt.Kind() {
+		case types.Uint64:
+			w = 8
+		case types.Uint32:
+			w = 4
+		}
+		if w != k {
+			continue
+		}
+		isLoad := func(v ssa.Value) bool {
+			call, ok := v.(*ssa.Call)
+			if !ok || call.Call.StaticCallee() == nil || len(call.Call.Args) != 1 {
+				return false
+			}
+			return isByteSlice(call.Call.Args[0].Type())
+		}
+		if isLoad(xo.X) && isLoad(xo.Y) {
+			return true
+		}
+	}
+	return false
+}
 
 func ruleBackExt(c *Ctx) {
 	n := 0
@@ -1507,6 +1674,10 @@ func rulePrefixStop(c *Ctx) {
 				incs = append(incs, inc{add, cnt, w})
 			case isConst1(cnt):
 				incs = append(incs, inc{add, cnt, 1})
+			case equalWordGuard(fi, add, cnt):
+				// a whole word (constant 4 or 8) counted under "the two words are equal" (xor == 0):
+				// nothing was skipped, counting may go on
+				incs = append(incs, inc{add, cnt, -1})
 			default:
 				// clamped word count: phi(word count, length)
 				if ph, isPhi := cnt.(*ssa.Phi); isPhi {
